@@ -228,8 +228,14 @@ fn exec_prag(case: &Value) -> Value {
         jobs.push(job_json(locs.len(), json!({"type": "unknown"})));
     }
     let vs = case["vs"].as_array().unwrap();
-    let vehicles: Vec<Value> =
+    let mut vehicles: Vec<Value> =
         vs.iter().enumerate().map(|(i, v)| vehicle_json(i, v, json!({"index": locs[0]}))).collect();
+    if case["rb"].as_bool().unwrap_or(false) {
+        if let Some(last) = vehicles.last_mut() {
+            last["shifts"][0]["breaks"] =
+                json!([{"time": {"earliest": "2100-01-01T00:00:00Z", "latest": "2100-01-01T00:00:00Z"}, "duration": 3600.0}]);
+        }
+    }
     let profiles: Vec<Value> = case["profiles"].as_array().unwrap().iter().map(|n| json!({"name": n})).collect();
     let problem = json!({"plan": {"jobs": jobs}, "fleet": {"vehicles": vehicles, "profiles": profiles}});
     let matrices: Vec<String> = case["ms"]
@@ -909,6 +915,11 @@ fn gen_prag(rng: &mut Rng) -> Value {
             // D3: with sparse matrix indices the unknown location is given an index inside the matrix
             dev = json!("D3");
         }
+    }
+    if !broken && rng.chance(1, 3) {
+        // a required break (far in the future) on the last vehicle: the reader then wraps the matrix provider into the reserved-time
+        // provider (`DynamicTransportCost`), which has to hand the supplied data through unchanged
+        case["rb"] = json!(true);
     }
     if !dev.is_null() {
         // D1 / D2 / D3 are repaired in /repo: plain class labels; S28 / S28u depend on the reader variant
